@@ -293,6 +293,16 @@ pub fn base_types(thorough: bool) -> Vec<Ty> {
             Ty::Map(Box::new(Ty::U8(Some((Some(1), Some(3))))), Box::new(k[2].clone()), None),
         ];
         v.extend(composites_over(&k2, &k2));
+        // every depth-1 composite next to a sibling in each two-child form
+        let sib = Ty::U8(Some((Some(1), Some(3))));
+        for x in &d1 {
+            v.push(Ty::Tuple(vec![x.clone(), sib.clone()], true));
+            v.push(Ty::Tuple(vec![sib.clone(), x.clone()], false));
+            v.push(Ty::Enum(vec![(0, vec![x.clone()]), (1, vec![sib.clone()])]));
+            v.push(Ty::Enum(vec![(3, vec![sib.clone()]), (9, vec![x.clone()])]));
+            v.push(Ty::Map(Box::new(sib.clone()), Box::new(x.clone()), Some((None, Some(1)))));
+            v.push(Ty::Array(Box::new(Ty::Tuple(vec![x.clone()], true)), None));
+        }
     }
     // recursive types
     v.push(Ty::Enum(vec![(0, vec![]), (1, vec![Ty::Rec])]));
